@@ -391,14 +391,25 @@ class Pool:
         # the first few are asked again on an otherwise idle pool with three times the patience.  A real hang hangs again.
         hung = [i for i, r in enumerate(out) if r is not None and "hang" in r][:6]
         if hung:
-            w = _Worker(self.binary, self.env, self.memlimit_kb)
-            try:
-                for i in hung:
-                    again = w.run_chunk([reqs[i]], timeout * 3)[0]
-                    if again is not None and "hang" not in again:
-                        out[i] = again
-            finally:
-                w.close()
+            # (six workers on 16 cores are still an idle machine; long timeouts are not multiplied - starvation costs
+            # seconds, not minutes)
+            patience = min(timeout * 3, max(timeout, 45))
+
+            def again(i):
+                w = _Worker(self.binary, self.env, self.memlimit_kb)
+                try:
+                    r = w.run_chunk([reqs[i]], patience)[0]
+                    if r is not None and "hang" not in r:
+                        out[i] = r
+                except Exception:
+                    pass
+                finally:
+                    w.close()
+            rts = [threading.Thread(target=again, args=(i,)) for i in hung]
+            for t in rts:
+                t.start()
+            for t in rts:
+                t.join()
         for i, r in enumerate(out):
             if r is None:
                 raise Machinery("no response for request %d" % i)
